@@ -603,7 +603,7 @@ fn make_grep_line_regex(regex_variant: GrepLineRegex) -> Regex {
         (                        # 1. file name (colons not allowed)
             [^:|\ =-]               # try to be strict about what a file path can start with
             [^:=-]*                 # anything except separators
-            [^:\ ]                  # a file name cannot end with whitespace
+            [^:\ =-]                # a file name cannot end with whitespace (or a separator)
         )
         "
         }
